@@ -2,114 +2,113 @@ package sim
 
 import "time"
 
-// shrinkTrace minimises a choice trace while test keeps returning a (possibly
-// canonicalised) trace, i.e. while the same violation class persists. test
-// returns the trace actually consumed by the run and whether it still fails.
-func shrinkTrace(trace []uint32, test func([]uint32) ([]uint32, bool), budget time.Duration) ([]uint32, int) {
+// shrinkTrace minimises a choice trace, stream by stream (generation,
+// scheduling, select/map orders, I/O chunking), while test keeps reporting the
+// same violation class. test returns the trace actually consumed by the run
+// (canonical form) and whether it still fails.
+func shrinkTrace(trace Trace, test func(Trace) (Trace, bool), budget time.Duration) (Trace, int) {
 	deadline := time.Now().Add(budget)
 	tests := 0
-	try := func(cand []uint32) ([]uint32, bool) {
-		tests++
-		return test(cand)
+	cur := trace.clone()
+	if c, ok := test(cur); ok {
+		cur = c.trimmed()
 	}
-	cur := append([]uint32(nil), trace...)
-	// canonicalise
-	if c, ok := try(cur); ok {
-		cur = c
-	}
-	trim := func(t []uint32) []uint32 {
-		for len(t) > 0 && t[len(t)-1] == 0 {
-			t = t[:len(t)-1]
-		}
-		return t
-	}
-	cur = trim(cur)
+	tests++
 	improved := true
 	for improved && time.Now().Before(deadline) {
 		improved = false
-		// delete spans
-		for size := len(cur) / 2; size >= 1; size /= 2 {
-			for i := 0; i+size <= len(cur) && time.Now().Before(deadline); {
-				cand := append(append([]uint32(nil), cur[:i]...), cur[i+size:]...)
-				if c, ok := try(cand); ok && len(trim(c)) < len(cur) {
-					cur = trim(c)
-					improved = true
-				} else {
-					i += size
+		for s := 0; s < nStreams && time.Now().Before(deadline); s++ {
+			s := s
+			try := func(cand []uint32) bool {
+				tests++
+				full := cur.clone()
+				full[s] = cand
+				c, ok := test(full)
+				if !ok {
+					return false
 				}
+				c = c.trimmed()
+				if !c.less(cur) {
+					return false
+				}
+				cur = c
+				improved = true
+				return true
 			}
-		}
-		// delete short spans of every size at every position (items of a
-		// generator consume a handful of consecutive choices)
-		for size := 12; size >= 1; size-- {
-			for i := 0; i+size <= len(cur) && time.Now().Before(deadline); {
-				cand := append(append([]uint32(nil), cur[:i]...), cur[i+size:]...)
-				if c, ok := try(cand); ok && len(trim(c)) < len(cur) {
-					cur = trim(c)
-					improved = true
-				} else {
-					i++
-				}
-			}
-		}
-		// zero spans
-		for size := len(cur) / 2; size >= 1; size /= 2 {
-			for i := 0; i+size <= len(cur) && time.Now().Before(deadline); i += size {
-				allZero := true
-				for _, v := range cur[i : i+size] {
-					if v != 0 {
-						allZero = false
-						break
-					}
-				}
-				if allZero {
-					continue
-				}
-				cand := append([]uint32(nil), cur...)
-				for j := i; j < i+size; j++ {
-					cand[j] = 0
-				}
-				if c, ok := try(cand); ok && less(trim(c), cur) {
-					cur = trim(c)
-					improved = true
-				}
-			}
-		}
-		// lower single values
-		for i := 0; i < len(cur) && time.Now().Before(deadline); i++ {
-			for cur[i] > 0 && time.Now().Before(deadline) {
-				lowered := false
-				for _, nv := range []uint32{cur[i] / 2, cur[i] - 1} {
-					if nv >= cur[i] {
-						continue
-					}
-					cand := append([]uint32(nil), cur...)
-					cand[i] = nv
-					if c, ok := try(cand); ok && less(trim(c), cur) {
-						cur = trim(c)
-						improved = true
-						lowered = true
-						break
-					}
-				}
-				if !lowered || i >= len(cur) {
-					break
-				}
-			}
+			shrinkStream(func() []uint32 { return cur[s] }, try, deadline)
 		}
 	}
 	return cur, tests
 }
 
-// less orders traces by (length, lexicographic).
-func less(a, b []uint32) bool {
-	if len(a) != len(b) {
-		return len(a) < len(b)
-	}
-	for i := range a {
-		if a[i] != b[i] {
-			return a[i] < b[i]
+// shrinkStream runs the one-dimensional passes on one stream. get returns the
+// stream's current content (it changes whenever try succeeds).
+func shrinkStream(get func() []uint32, try func([]uint32) bool, deadline time.Time) {
+	alive := func() bool { return time.Now().Before(deadline) }
+	// delete spans, halving
+	for size := len(get()) / 2; size >= 1 && alive(); size /= 2 {
+		for i := 0; i+size <= len(get()) && alive(); {
+			cur := get()
+			cand := append(append([]uint32(nil), cur[:i]...), cur[i+size:]...)
+			if !try(cand) {
+				i += size
+			}
 		}
 	}
-	return false
+	// delete short spans of every size at every position (items of a generator
+	// consume a handful of consecutive choices)
+	for size := 12; size >= 1 && alive(); size-- {
+		for i := 0; i+size <= len(get()) && alive(); {
+			cur := get()
+			cand := append(append([]uint32(nil), cur[:i]...), cur[i+size:]...)
+			if !try(cand) {
+				i++
+			}
+		}
+	}
+	// zero spans
+	for size := len(get()) / 2; size >= 1 && alive(); size /= 2 {
+		for i := 0; i+size <= len(get()) && alive(); i += size {
+			cur := get()
+			allZero := true
+			for _, v := range cur[i : i+size] {
+				if v != 0 {
+					allZero = false
+					break
+				}
+			}
+			if allZero {
+				continue
+			}
+			cand := append([]uint32(nil), cur...)
+			for j := i; j < i+size; j++ {
+				cand[j] = 0
+			}
+			try(cand)
+		}
+	}
+	// lower single values
+	for i := 0; i < len(get()) && alive(); i++ {
+		for alive() {
+			cur := get()
+			if i >= len(cur) || cur[i] == 0 {
+				break
+			}
+			lowered := false
+			for _, nv := range []uint32{0, cur[i] / 2, cur[i] - 1} {
+				if nv >= cur[i] {
+					continue
+				}
+				cand := append([]uint32(nil), cur...)
+				cand[i] = nv
+				if try(cand) {
+					lowered = true
+					break
+				}
+			}
+			if !lowered {
+				break
+			}
+		}
+	}
 }
